@@ -10,7 +10,7 @@
    comment preservation and idempotence of the formatter as a whole are searched (checks/c11.py),
    not proved. *)
 From Coq Require Import NArith List Bool.
-From KV.syn Require Import SynBase GenFmtSpec FmtSpecModel FmtSpecProofs SliceModel SliceProofs.
+From KV.syn Require Import SynBase GenFmtSpec FmtSpecModel FmtSpecProofs SliceModel SliceProofs TriviaSkip.
 Import ListNotations.
 Open Scope N_scope.
 
@@ -79,6 +79,23 @@ Theorem slice_panics :
   source_slice ([233; 233; 233; 61] ++ [49] ++ []) (tok_span w_demo [233; 233; 233; 61] [49]) = SlicePanic.
 Proof. exact SliceProofs.slice_panics_small. Qed.
 Print Assumptions slice_panics.
+
+(* ---- the only place where the formatter discards trivia: after copying a `#[fmt:skip]` node verbatim it
+   skips the items "already captured in the node's span".  The comparison is regenerated from format.rs
+   (gen_skip_test).  Spans are half-open: an item starting exactly at the node's end is outside. *)
+Theorem gen_skip_test_spec : forall i e : pos, gen_skip_test i e = true <-> inside e i.
+Proof. exact TriviaSkip.gen_skip_test_spec. Qed.
+Print Assumptions gen_skip_test_spec.
+
+(* a comment outside the copied region is never consumed -- for every list of trivia items *)
+Theorem skip_keeps_outside :
+  forall (e : pos) (items : list pos) (i : pos),
+    In i items -> ~ inside e i -> In i (skip_captured e items).
+Proof. exact TriviaSkip.skip_keeps_outside. Qed.
+Print Assumptions skip_keeps_outside.
+
+Example nv_skip_adjacent : skip_captured (3, 17) [(3, 12); (3, 17)] = [(3, 17)].
+Proof. vm_compute; reflexivity. Qed.
 
 (* ---- non-vacuity *)
 Example nv_parse_08 :
